@@ -3,7 +3,14 @@
    Net/NetbufWrite.v (mirrors of netbuf_{read,write}.c); 4096 / 2 / WBUFLEN are regenerated from
    the C text (Gen/Repo_net.v).  The transport below is the C06 contract: a completed read reports
    n in [min, max] bytes stored in its target range, or 0, or -1; a completed write reports its
-   whole length or -1. *)
+   whole length or -1.
+   netbuf_read.c / netbuf_write.c hand the started transfer to one of two transports - the
+   descriptor (network_read / network_write) or, for an object made by netbuf_*_init2(-1, ctx), the
+   context transport behind netbuf_{read,write}_ssl_func (TLS) - with the argument computations
+   written once per branch: the reader / writer theorems below are about those argument
+   computations (target range, max, min, whole-buffer length), which both branches share, and the
+   correspondence run (areas/net.py: every netbuf scenario as sc and as scx) executes BOTH branches
+   of the C against the one model. *)
 From Coq Require Import NArith ZArith List Bool Arith.
 From LCP Require Import Base.CheckedMem Gen.Repo_net Net.NetRW Net.NetbufRead Net.NetbufWrite Net.NetWorld.
 From LCP Require Import Net.NetbufReadProofs Net.NetbufWriteProofs Net.NetTie.
